@@ -1,5 +1,5 @@
-(* drv_dfh.ml — runs the extracted Coq model of the defragmentation planner (Defrag.wstep) on the
-   op lines of a dfh trace and prints the lines dfh prints for the real code (except ORACLE-FAIL).
+(* drv_dfh.ml — runs the extracted Coq model of the defragmentation planner (Defrag.wstep_f: the
+   protocol of Defrag.wstep plus refused commits) on the op lines of a dfh trace and prints the lines dfh prints for the real code (except ORACLE-FAIL).
    Hand-written glue (trusted): line parsing, int <-> Z conversion, printing. *)
 open Datatypes
 open BinNums
@@ -14,19 +14,24 @@ let bool_int b = if b then 1 else 0
 let fields line = Stdlib.List.filter (fun s -> s <> "") (String.split_on_char ' ' line)
 let atoi f i = match Stdlib.List.nth_opt f i with Some s -> (try int_of_string s with _ -> 0) | None -> 0
 
+let valid_gran g = g >= 1 && g <= 65536 && g land (g - 1) = 0
+
 let parse_cfg f =
-  let sizes = ref [] and sentinel = ref false in
+  let sizes = ref [] and sentinel = ref false and gran = ref 1 and vam = ref false in
   Stdlib.List.iter (fun tok ->
       match String.split_on_char '=' tok with
       | [ "blocks"; v ] ->
         sizes := Stdlib.List.filter_map (fun s -> match int_of_string_opt s with Some n when n >= 0 -> Some n | _ -> None)
             (String.split_on_char ',' v)
       | [ "sentinel"; v ] -> sentinel := (v = "1")
+      | [ "gran"; v ] -> (match int_of_string_opt v with Some g when valid_gran g -> gran := g | _ -> ())
+      | [ "handler"; v ] -> if v = "vam" then vam := true
       | _ -> ()) f;
-  (!sizes, !sentinel)
+  (!sizes, !sentinel, !gran, !vam)
 
-let cfg_line (sizes, sentinel) =
+let cfg_line (sizes, sentinel, gran, vam) =
   Printf.sprintf "CFG blocks=%s sentinel=%d" (String.concat "," (Stdlib.List.map string_of_int sizes)) (bool_int sentinel)
+  ^ (if gran <> 1 || vam then Printf.sprintf " gran=%d handler=%s" gran (if vam then "vam" else "fake") else "")
 
 let kind_str = function Util.ROk -> "ok" | Util.RRefused -> "refused" | Util.RError -> "error" | Util.RPanic -> "panic"
 
@@ -54,11 +59,12 @@ let print_obs (w : Defrag.world) =
 
 let () =
   let ic = open_in Sys.argv.(1) in
-  let w = ref None in
+  let w : Defrag.worldf option ref = ref None in
   let pend_end : int list option ref = ref None in   (* decisions of an END line waiting for its ORD line *)
-  let exec_op (wd : Defrag.world) op =
-    let (w', out) = Defrag.wstep wd op in
-    w := Some w';
+  let exec_opf (wd : Defrag.worldf) opf =
+    let ((wf', out), log) = Defrag.wstep_f wd opf in
+    w := Some wf';
+    let w' = wf'.Defrag.wf_w in
     (match out with
      | Defrag.OutKind k -> Printf.printf "R %s\n" (kind_str k)
      | Defrag.OutAlloc (s, off) -> Printf.printf "R ok %d %d\n" (int_of_nat s) (int_of_z off)
@@ -71,7 +77,12 @@ let () =
        Printf.printf "R ok %d\n" (Stdlib.List.length ms);
        Stdlib.List.iteri (fun i m ->
            Printf.printf "MV %d %d %d %d %d %d %d\n" i (int_of_nat m.Defrag.m_src) (int_of_z m.Defrag.m_srcblk)
-             (int_of_z m.Defrag.m_srcoff) (int_of_z m.Defrag.m_dstblk) (int_of_z m.Defrag.m_dstoff) (int_of_z m.Defrag.m_size)) ms
+             (int_of_z m.Defrag.m_srcoff) (int_of_z m.Defrag.m_dstblk) (int_of_z m.Defrag.m_dstoff) (int_of_z m.Defrag.m_size)) ms;
+       (* the refused commit attempts of the pass, with their index among all attempts *)
+       Stdlib.List.iteri (fun k a ->
+           match a with
+           | Defrag.AtFail (slot, dst) -> Printf.printf "RF %d %d %d\n" k (int_of_nat slot) (int_of_z dst)
+           | Defrag.AtOk _ -> ()) log
      | Defrag.OutEnd (k, sws) ->
        Printf.printf "R %s\n" (kind_str k);
        Stdlib.List.iter (fun (l, r) -> Printf.printf "SW %d %d\n" (int_of_z l) (int_of_z r)) sws
@@ -82,6 +93,7 @@ let () =
     let dead_out = (match out with Defrag.OutDead -> true | _ -> false) in
     if not w'.Defrag.w_dead && not dead_out then print_obs w'
   in
+  let exec_op wd op = exec_opf wd (Defrag.OpF op) in
   let flush_end ord =
     match !pend_end, !w with
     | Some ds, Some wd ->
@@ -97,12 +109,15 @@ let () =
     | "CFG" :: _ ->
       let c = parse_cfg f in
       print_endline (cfg_line c);
-      w := Some (Defrag.world_init (Stdlib.List.map z_of_int (fst c)) (snd c))
+      let (sizes, sentinel, gran, vam) = c in
+      w := Some { Defrag.wf_w = Defrag.world_init_g (if vam then Gran.HVam else Gran.HFake) (z_of_int gran)
+                      (Stdlib.List.map z_of_int sizes) sentinel;
+                  Defrag.wf_fail = [] }
     | "END" :: rest ->
       (match !w with
-       | Some wd when wd.Defrag.w_open ->
+       | Some wd when wd.Defrag.wf_w.Defrag.w_open ->
          print_endline (String.concat " " f);
-         if wd.Defrag.w_dead then exec_op wd (Defrag.OpEnd ([], []))
+         if wd.Defrag.wf_w.Defrag.w_dead then exec_op wd (Defrag.OpEnd ([], []))
          else pend_end := Some (ints rest)
        | _ -> print_endline "END")
     | k :: _ ->
@@ -117,6 +132,9 @@ let () =
           | "BEGIN" -> exec_op wd (Defrag.OpBegin (z 1, z 2, z 3, z 4))
           | "PASS" -> exec_op wd Defrag.OpPass
           | "STATS" -> exec_op wd Defrag.OpStats
+          | "CF" ->
+            exec_opf wd (Defrag.OpCF (Stdlib.List.filter_map (fun s ->
+                match int_of_string_opt s with Some k when k >= 0 -> Some (z_of_int k) | _ -> None) (Stdlib.List.tl f)))
           | _ -> ()))
     | [] -> ()
   in
@@ -127,7 +145,7 @@ let () =
        match f with
        | [] -> ()
        | "ORD" :: rest -> flush_end (ints rest)
-       | ("A" | "F" | "BEGIN" | "PASS" | "END" | "STATS" | "H" | "CFG") :: _ ->
+       | ("A" | "F" | "BEGIN" | "PASS" | "END" | "STATS" | "CF" | "H" | "CFG") :: _ ->
          (* an END line without its ORD line (hand-written trace): canonical order *)
          if !pend_end <> None then flush_end [];
          dispatch f
